@@ -254,7 +254,11 @@ func (vm *VM) generalIndirect(r int8) reflect.Value {
 	}
 	elem := v.Elem()
 	if elem.Kind() == reflect.Func {
-		return reflect.ValueOf(&callable{native: NewNativeFunction("", "", elem)})
+		// The callable holds the function that the variable holds now, not
+		// the variable.
+		f := reflect.New(elem.Type()).Elem()
+		f.Set(elem)
+		return reflect.ValueOf(&callable{native: NewNativeFunction("", "", f)})
 	}
 	return elem
 }
@@ -330,6 +334,13 @@ func (vm *VM) setFromReflectValue(r int8, v reflect.Value) registerType {
 		vm.setString(r, v.String())
 		return stringRegister
 	case reflect.Func:
+		if v.CanAddr() {
+			// The callable holds the function that the variable, element
+			// or field holds now.
+			f := reflect.New(v.Type()).Elem()
+			f.Set(v)
+			v = f
+		}
 		c := &callable{native: NewNativeFunction("", "", v)}
 		vm.setGeneral(r, reflect.ValueOf(c))
 		return generalRegister
